@@ -681,6 +681,7 @@ func RequireFactsAtInstr(c *Ctx, p *Program, rule string, fn *ssa.Function, targ
 				}
 			}
 		}
+		closeLoops(fn, deleted) // "for all i" facts established inside loops
 		seen := reach(fn, fn.Blocks[0], deleted)
 		ok := true
 		pos := p.Pos(fn.Pos())
